@@ -596,8 +596,11 @@ func (s *aggSession) opRecs(i int, op plan.Op) {
 	seen := map[int]bool{}
 	for _, sub := range op.F {
 		r := s.recOf(sub)
-		if r.Key < 0 || r.Key >= len(s.keyCat) || seen[r.Key] {
+		if r.Key < 0 || r.Key >= len(s.keyCat) {
 			continue
+		}
+		if seen[r.Key] {
+			s.env.Count("probe.message_with_two_records_of_one_flow", 1)
 		}
 		if len(rs) > 0 && s.keyV6[r.Key] != v6s[0] {
 			continue // one set, one template: records of one address family
